@@ -243,7 +243,11 @@ def r02g(ctx):
                 rets.append(r)
     ctx.floor("R02g", len(rets), 1, "returns of LeafNode.__eq__ for a leaf operand")
     for r in rets:
-        conj = r.value.values if isinstance(r.value, ast.BoolOp) and isinstance(r.value.op, ast.And) else [r.value]
+        from ..astx import resolve_local
+        rv = resolve_local(f.node, r.value)
+        conj = rv.values if isinstance(rv, ast.BoolOp) and isinstance(rv.op, ast.And) else [rv]
+        conj = [resolve_local(f.node, c) for c in conj]
+        conj = [x for c in conj for x in (c.values if isinstance(c, ast.BoolOp) and isinstance(c.op, ast.And) else [c])]
         txt = [ast.unparse(c).replace(" ", "") for c in conj]
         value = any(t in (f"self.object=={o}.object", f"{o}.object==self.object") for t in txt)
         kinds = (f"isinstance(self.object,bool)==isinstance({o}.object,bool)", f"isinstance({o}.object,bool)==isinstance(self.object,bool)",
